@@ -1622,6 +1622,16 @@ class TypeSystem:  # noqa: PLR0904
             sub_class: subclass
         """
         self._graph.add_edge(super_class, sub_class)
+        # Answers derived from the inheritance graph must not survive a change of it.
+        for cached in (
+            self.get_subclasses,
+            self.get_superclasses,
+            self.is_subclass,
+            self.is_subtype,
+            self.is_maybe_subtype,
+            self.subtype_distance,
+        ):
+            cached.cache_clear()
 
     @functools.lru_cache(maxsize=1024)
     def get_subclasses(self, klass: TypeInfo) -> OrderedSet[TypeInfo]:
